@@ -8,6 +8,8 @@
 mod util;
 
 #[cfg(kani)]
+mod c02_grid;
+#[cfg(kani)]
 mod c04_nderiv;
 #[cfg(kani)]
 mod c06_cmp;
@@ -17,3 +19,5 @@ mod c06_nonint;
 mod c06_pred;
 #[cfg(kani)]
 mod c11_field;
+#[cfg(kani)]
+mod c13_convert;
